@@ -25,7 +25,7 @@ def RULE(tier):
         "(BeginSeqNo, EndSeqNo) with BeginSeqNo in [-1, L+3], EndSeqNo in {0} U [BeginSeqNo-1, L+3], issued one after the "
         "other on the same endpoint (so every request also runs after earlier overlapping and identical requests), in ACTIVE "
         "and while the endpoint itself awaits a resend; numbering epochs (reset_seq_num() between requests, so that later requests carry lower "
-        "MsgSeqNums than earlier ones); plus Hypothesis journals up to 30 slots with requests interleaved "
+        "MsgSeqNums than earlier ones); a journal of 1300 (quick) / 5000 (thorough) slots requested as a whole, from the middle and bounded; plus Hypothesis journals up to 30 slots with requests interleaved "
         "with further sends. Chain validator written from the statement: the reply is a contiguous ascending chain covering "
         "exactly [b, t] whose links are retransmissions (original type and MsgSeqNum, PossDupFlag=Y, OrigSendingTime = "
         "original SendingTime, body equal field for field) or SequenceReset-GapFill; every replayable application message "
@@ -325,6 +325,14 @@ def exhaustive(acc, role, state, nslots, part, parts):
                 run_journal(acc, role, state, slots, d_reqs, "exhaustive-repeat")
 
 
+def bulk(acc, role, n):
+    """A long journal (more rows than any batch / page size one would pick) requested as a whole, from the middle, and bounded."""
+    slots = (["app"] * 9 + ["hb"]) * (n // 10)
+    L = len(slots) + 2
+    run_journal(acc, role, "active", slots, [(1, 0), (L - 1200, 0), (2, L - 3), (L - 5, 0)], "bulk")
+    acc.klass("bulk-journal")
+
+
 slot = st.sampled_from(SLOTS + ["app", "app", "appg"])
 item = st.one_of(st.just("reset"), st.tuples(st.integers(-1, 36), st.integers(-1, 36)), st.tuples(st.integers(1, 30), st.just(0)), st.tuples(st.integers(1, 12), st.integers(1, 12)),
                  st.sampled_from(SLOTS))
@@ -347,6 +355,7 @@ def plan(tier, seed):
         for state in ("active", "awaiting"):
             parts = 3 if tier == "quick" else 4
             jobs += [("exhaustive", {"role": role, "state": state, "nslots": nslots, "part": i, "parts": parts}) for i in range(parts)]
+    jobs += [("bulk", {"role": r, "n": 1300 if tier == "quick" else 5000}) for r in ("acceptor", "initiator")]
     n, k = (150, 4) if tier == "quick" else (6000, 12)
     jobs += [("hyp_shard", {"n": n, "seed": derive_seed(seed, PROPERTY, i)}) for i in range(k)]
     return jobs
